@@ -126,6 +126,47 @@ Definition distinguish (strict : bool) (l : list val) : list val :=
   let ks := map (fun v => [knorm strict v]) l in
   flat_map (fun i => match nth_error l i with Some v => [v] | None => [] end) (distinct_idx ks).
 
+Definition pick {A} (l : list A) (idxs : list nat) : list A :=
+  flat_map (fun i => match nth_error l i with Some x => [x] | None => [] end) idxs.
+
+(* ---- LATERAL (load_view.go: loadView, case parser.Join with a LATERAL table) -------------------
+   the derived table is evaluated once per left row, in order, and joined with that row alone;
+   the per-row results are concatenated.  `sub` is the derived table as a function of the left row. *)
+Fixpoint lateral_rows (k : jkind) (cond : option expr) (lw rw : nat) (sub : row -> res (list row))
+         (ls : list row) : res (list row) :=
+  match ls with
+  | [] => Ok []
+  | l :: ls' =>
+      do rs <- sub l;
+      do a <- join_rows k cond lw rw [l] rs;
+      do b <- lateral_rows k cond lw rw sub ls';
+      Ok (a ++ b)
+  end.
+
+(* ---- recursive common table expression (query.go: selectSet / selectSetForRecursion) -----------
+   base UNION [ALL] step: the step query is evaluated with the temporary view bound first to the
+   base result and then to the previous step result, until a step result is empty; all results
+   are combined by UNION [ALL].  `fuel` is the number of step evaluations --limit-recursion allows. *)
+Section RecLoop.
+  Variable strict : bool.
+  Variable all : bool.
+  Variable step : list row -> res (list row).
+
+  Definition union_rows (a b : list row) : list row :=
+    pick (a ++ b) (union_idx all (map (row_key strict) a) (map (row_key strict) b)).
+
+  Fixpoint rec_loop (fuel : nat) (acc work : list row) : res (list row) :=
+    match fuel with
+    | O => Err (EOther 97)                              (* iteration of recursive query exceeded the limit *)
+    | S f =>
+        do new <- step work;
+        match new with
+        | [] => Ok (union_rows acc [])
+        | _ => rec_loop f (union_rows acc new) new
+        end
+    end.
+End RecLoop.
+
 (* ---- the query ------------------------------------------------------------------------------- *)
 Inductive sitem :=
 | SExpr (e : expr)                                     (* scalar over the (first) row *)
@@ -141,6 +182,8 @@ Inductive source :=
 | SrcTable (width : nat) (rows : list row)
 | SrcJoin (k : jkind) (l r : source) (cond : option expr)
 | SrcSub (q : query)
+| SrcLateral (k : jkind) (l : source) (rw : nat) (sub : row -> query) (cond : option expr)
+| SrcRec (all : bool) (width : nat) (base : query) (step : list row -> query) (limit : nat)
 with body :=
 | BSelect (src : source) (where_ : option expr) (group : option (list expr)) (having : option expr)
           (items : list sitem) (distinct : bool)
@@ -169,14 +212,13 @@ Section Eval.
     Ok (map (fun idxs => flat_map (fun i => match nth_error rows i with Some r => [r] | None => [] end) idxs)
             (group_keys ks)).
 
-  Definition pick {A} (l : list A) (idxs : list nat) : list A :=
-    flat_map (fun i => match nth_error l i with Some x => [x] | None => [] end) idxs.
-
   Fixpoint src_width (s : source) : nat :=
     match s with
     | SrcTable w _ => w
     | SrcJoin _ l r _ => src_width l + src_width r
     | SrcSub q => query_width q
+    | SrcLateral _ l rw _ _ => src_width l + rw
+    | SrcRec _ w _ _ _ => w
     end
   with body_width (b : body) : nat :=
     match b with
@@ -226,6 +268,15 @@ Section Eval.
         do ls <- eval_source l; do rs <- eval_source r;
         join_rows k cond (src_width l) (src_width r) ls rs
     | SrcSub q => eval_query q
+    | SrcLateral k l rw sub cond =>
+        do ls <- eval_source l;
+        match k with
+        | JRight | JFull => Err (EOther 98)            (* LATERAL cannot be used in a RIGHT or FULL outer join *)
+        | _ => lateral_rows k cond (src_width l) rw (fun o => eval_query (sub o)) ls
+        end
+    | SrcRec all _ base step limit =>
+        do b <- eval_query base;
+        rec_loop strict all (fun w => eval_query (step w)) limit b b
     end
   with eval_body (b : body) : res (list (row * row)) :=
     match b with
